@@ -77,7 +77,7 @@ CHECKS = {
         "level": "exploration",
         "tests": [
             {"pkg": "kvx", "run": "^TestC12_Model$", "quick": 2400, "thorough": 120000},
-            {"pkg": "e2ex", "run": "^TestC12_E2E$", "quick": 160, "thorough": 6000, "shards": {"quick": 8, "thorough": 16}},
+            {"pkg": "e2ex", "run": "^TestC12_E2E$", "quick": 160, "thorough": 6000, "shards": {"quick": 8, "thorough": 16}, "max_per_process": 120},
         ],
         "floors": {"multi_op_one_key": 0.2, "range_over_100": 0.05},
         "rule": "rapid state machine over a real kv.DB driven through the exported callback chain used by leader and follower "
@@ -140,7 +140,7 @@ CHECKS = {
             {"pkg": "kvx", "run": "^TestC17_Content$", "quick": 3000, "thorough": 320000},
             {"pkg": "leaderx", "run": "^TestC17_Stream$", "quick": 800, "thorough": 60000},
             {"pkg": "clientx", "run": "^TestC17_ClientNotifications$", "quick": 48, "thorough": 1600, "shards": {"quick": 8, "thorough": 16}, "shrinktime": "30s"},
-            {"pkg": "e2ex", "run": "^TestC17_E2E$", "quick": 160, "thorough": 6000, "shards": {"quick": 8, "thorough": 16}},
+            {"pkg": "e2ex", "run": "^TestC17_E2E$", "quick": 160, "thorough": 6000, "shards": {"quick": 8, "thorough": 16}, "max_per_process": 120},
         ],
         "floors": {"trim_removed": 0.08, "resumed_from_last_seen": 0.05},
         "rule": "rapid state machine over a real kv.DB with notifications enabled: generated write requests (puts+deletes of one "
@@ -159,7 +159,7 @@ CHECKS = {
         "tests": [
             {"pkg": "leaderx", "run": "^TestC08_Pipeline$", "quick": 600, "thorough": 100000},
             {"pkg": "leaderx", "run": "^TestC08_Tracker$", "quick": 40000, "thorough": 10000000},
-            {"pkg": "e2ex", "run": "^TestC08_E2E$", "quick": 200, "thorough": 8000, "shards": {"quick": 8, "thorough": 16}},
+            {"pkg": "e2ex", "run": "^TestC08_E2E$", "quick": 200, "thorough": 8000, "shards": {"quick": 8, "thorough": 16}, "max_per_process": 120},
         ],
         "floors": {"concurrent_writers": 0.005, "duplicate_ack": 0.05},
         "rule": "(a) a real RF=1 LeaderController (real WAL with 4 KiB..1 MiB segments, real Pebble) with 1-12 concurrent writer "
@@ -182,7 +182,7 @@ CHECKS = {
         "tests": [
             {"pkg": "leaderx", "run": "^TestC14_Sessions$", "quick": 800, "thorough": 120000},
             {"pkg": "leaderx", "run": "^TestC14_Expiry$", "quick": 64, "thorough": 1600, "shards": {"quick": 8, "thorough": 16}, "shrinktime": "20s"},
-            {"pkg": "e2ex", "run": "^TestC14_ClientSessions$", "quick": 48, "thorough": 1200, "shards": {"quick": 8, "thorough": 16}, "shrinktime": "30s"},
+            {"pkg": "e2ex", "run": "^TestC14_ClientSessions$", "quick": 48, "thorough": 1200, "shards": {"quick": 8, "thorough": 16}, "shrinktime": "30s", "max_per_process": 120},
         ],
         "floors": {"takeover": 0.02, "leader_change": 0.15, "session_expired": {"quick": 30, "thorough": 800}},
         "rule": "rapid state machine over a real RF=1 LeaderController with its real SessionManager: CreateSession (<=3 live), "
@@ -202,7 +202,7 @@ CHECKS = {
         "level": "exploration",
         "tests": [
             {"pkg": "leaderx", "run": "^TestC15_Indexes$", "quick": 1000, "thorough": 75000},
-            {"pkg": "e2ex", "run": "^TestC15_E2E$", "quick": 160, "thorough": 6000, "shards": {"quick": 8, "thorough": 16}},
+            {"pkg": "e2ex", "run": "^TestC15_E2E$", "quick": 160, "thorough": 6000, "shards": {"quick": 8, "thorough": 16}, "max_per_process": 120},
         ],
         "floors": {"two_indexes_populated": 0.3, "probe_outside_index_range": 0.3},
         "rule": "rapid state machine over a real RF=1 LeaderController: generated writes with 0-2 index declarations per put over "
@@ -272,7 +272,7 @@ CHECKS = {
             {"pkg": "clientx", "run": "^TestC20_FanOut$", "quick": 1200, "thorough": 100000},
             {"pkg": "clientx", "run": "^TestC20_SlowWrites$", "quick": 240, "thorough": 8000},
             {"pkg": "clientx", "run": "^TestC20_AbandonedList$", "quick": 1200, "thorough": 40000},
-            {"pkg": "e2ex", "run": "^TestC20_E2E$", "quick": 160, "thorough": 6000, "shards": {"quick": 8, "thorough": 16}},
+            {"pkg": "e2ex", "run": "^TestC20_E2E$", "quick": 160, "thorough": 6000, "shards": {"quick": 8, "thorough": 16}, "max_per_process": 120},
         ],
         "rule": "the real public client (oxia.NewAsyncClient, unmodified) over loopback gRPC against harness-owned fake servers "
                 "(1 bootstrap + 1-3 leaders per case, 1-6 shards): 5-80 generated calls mixing Put / Delete / DeleteRange / Get with "
